@@ -146,6 +146,17 @@ def nested():
                                 ('r', T('BOOLEAN', [('I', CTX, 0)]), 'opt')])
     out.append((sett, {'p': 1, 'q': b'oct'}))
     out.append((sett, {'p': 1, 'q': b'oct', 'r': True}))
+    # canonical SET order is (class, number) of the outermost tag -- the form bit does not count
+    mixed = T('SET', [], fields=[('a', T('IA5String'), 'req'), ('b', T('SEQUENCE', [], fields=[('x', T('INTEGER'), 'req')]), 'req'),
+                                 ('c', T('INTEGER', [('I', CTX, 1)]), 'req'), ('d', T('INTEGER', [('E', CTX, 0)]), 'req'),
+                                 ('e', T('BOOLEAN', [('I', APP, 3)]), 'opt'), ('f', T('NULL', [('E', APP, 2)]), 'opt')])
+    out.append((mixed, {'a': 'hi', 'b': {'x': 1}, 'c': 2, 'd': 0}))
+    out.append((mixed, {'a': '', 'b': {'x': 0}, 'c': 0, 'd': 3, 'e': True, 'f': None}))
+    zeros = T('SEQUENCE', [], fields=[('i', T('INTEGER'), 'req'), ('z', T('INTEGER'), 'req'), ('b', T('BOOLEAN'), 'req'),
+                                      ('e', T('ENUMERATED'), 'req'), ('j', T('INTEGER'), 'req')])
+    out.append((zeros, {'i': 3, 'z': 0, 'b': False, 'e': 0, 'j': 5}))
+    out.append((T('SEQUENCEOF', elem=T('INTEGER')), [3, 0, 5]))
+    out.append((T('SETOF', elem=T('BOOLEAN')), [True, False]))
     wrap = T('SEQUENCE', [('E', PRIV, 77)], fields=[('s', sett, 'req'), ('z', T('NULL'), 'opt')])
     out.append((wrap, {'s': {'p': 9, 'q': b''}}))
     out.append((wrap, {'s': {'p': 9, 'q': b'', 'r': False}, 'z': None}))
